@@ -87,13 +87,17 @@ Variable labels_ok : dict -> bool.                (* the mode/basis/unit tables 
 Definition getd (k : string) (d : dict) (dflt : pyval) : pyval := match dget k d with Some v => v | None => dflt end.
 Definition is_none (v : pyval) : bool := match v with VNone => true | _ => false end.
 
-(* split_ads_data on a RangeIndex: rows after the first pressure maximum are desorption *)
+(* split_ads_data: position of the first pressure maximum *)
 Fixpoint argmax_go (l : list Q) (cur best : nat) (bv : Q) : nat :=
   match l with [] => best | x :: r => if Qltb bv x then argmax_go r (S cur) cur x else argmax_go r (S cur) best bv end.
 Definition argmax_first (l : list Q) : nat := match l with [] => O | x :: r => argmax_go r 1 0 x end.
 Fixpoint marks_after (k cur n : nat) : list bool :=
   match n with O => [] | S n' => Nat.ltb k cur :: marks_after k (S cur) n' end.
-Definition guess (ps : list Q) : list bool := marks_after (argmax_first ps) 0 (length ps).
+(* math_utilities.split_ads_data (after fix 179a001: positions, not row labels): the maximum is the last point -> all adsorption;
+   the maximum is the FIRST point (of several) -> all desorption; otherwise the rows after the first maximum are desorption *)
+Definition guess (ps : list Q) : list bool :=
+  let k := argmax_first ps in
+  if Nat.eqb k 0 && negb (Nat.eqb (length ps) 1) then repeat true (length ps) else marks_after k 0 (length ps).
 Fixpoint all_some {A} (l : list (option A)) : option (list A) :=
   match l with [] => Some [] | Some x :: r => option_map (cons x) (all_some r) | None :: _ => None end.
 
